@@ -151,6 +151,25 @@ theorem reframe (f : Fields) (data pkt : Bytes) (hf : f.ok) (hd : 1 ≤ data.len
     key _ (by simpa [initFile] using hne) (by simp [initFile]) (by simp [initFile, hcat]) (by simp [initFile]),
     key _ (by simpa [initSocket] using hne) (by simp [initSocket]) (by simp [initSocket, hcat]) (by simp [initSocket])⟩
 
+/-- … and with any declared number of foreign prefix bytes before it. -/
+theorem reframe_with_prefix (f : Fields) (data pkt pre : Bytes) (hf : f.ok) (hd : 1 ≤ data.length ∧ data.length ≤ 65536)
+    (h : createPacket f.toHeader data = some pkt) (trim : Nat) (chunks : List Bytes)
+    (hne : ∀ c ∈ chunks, c ≠ []) (hcat : chunks.flatten = pre ++ pkt) :
+    frame ⟨pre.length, trim⟩ (initBytes (pre ++ pkt)) = [pkt] ∧
+    frame ⟨pre.length, trim⟩ (initFile chunks (pre ++ pkt).length) = [pkt] ∧
+    frame ⟨pre.length, trim⟩ (initSocket chunks) = [pkt] := by
+  have hwf := created_wf f data pkt hf hd h
+  have key : ∀ st : FrameSt, (∀ c ∈ st.src, c ≠ []) → st.pos ≤ st.buf.length →
+      st.buf.drop st.pos ++ st.src.flatten = pre ++ pkt →
+      (∀ T, st.total = some T → st.parsed + (pre ++ pkt).length = T) → frame ⟨pre.length, trim⟩ st = [pkt] := by
+    intro st h1 h2 h3 h4
+    have := frame_exact ⟨pre.length, trim⟩ [(pre, pkt)] (by simp [hwf]) st h1 h2 (by simp [encode, h3])
+      (by simpa [encode] using h4)
+    simpa using this
+  refine ⟨key _ (by simp [initBytes]) (by simp [initBytes]) (by simp [initBytes]) (by simp [initBytes]),
+    key _ (by simpa [initFile] using hne) (by simp [initFile]) (by simp [initFile, hcat]) (by simp [initFile]),
+    key _ (by simpa [initSocket] using hne) (by simp [initSocket]) (by simp [initSocket, hcat]) (by simp [initSocket])⟩
+
 /-- Non-vacuity: a concrete in-range header. -/
 example : (⟨0, 0, 1, 2047, 3, 16383⟩ : Fields).ok := by simp [Fields.ok]
 example : createPacket ⟨0, 0, 1, 2047, 3, 16383⟩ [0xAB] = some [0x0F, 0xFF, 0xFF, 0xFF, 0x00, 0x00, 0xAB] := by rfl
